@@ -5,7 +5,7 @@
    C04/Spec.v.  [final valid h] is the machine state after the history h (any sequence of
    kernel events and psutil calls, any number of generators advanced in any interleaving),
    [irun valid h] the same with the per-generator ghost records. *)
-From PV Require Import C04.Spec C04.Proofs C04.ProofsTable C04.ProofsIter.
+From PV Require Import C04.Spec C04.Proofs C04.ProofsTable C04.ProofsIter C04.ProofsStale C04.Legacy.
 
 (* ---- text level ---- *)
 
@@ -78,8 +78,8 @@ Print Assumptions C04_pid_exists_false.
 
 (* what any generator has yielded so far (yields are kept newest first): strictly ascending
    PIDs without duplicates; each PID was listed when the body was entered; the object is the
-   cached one when the PID was cached and not marked as reused, otherwise one created after the
-   body was entered; with attrs=l every name is valid and the info keys are exactly l (all
+   cached one (only possible when the PID was cached and not marked as reused) or one created after
+   the body was entered (C04_visit_cached says when: no entry, or the cached instance carries the reused flag); with attrs=l every name is valid and the info keys are exactly l (all
    names for l = []) *)
 Theorem C04_iter_yields : forall valid h g,
   let gh := snd (irun valid h) g in
@@ -87,7 +87,7 @@ Theorem C04_iter_yields : forall valid h g,
   forall p o i, In (p, o, i) (gh_yields gh) ->
     In p (gh_list gh) /\
     ((dget p (gh_cache gh) = Some o /\ ~ In p (gh_marked gh))
-     \/ (dget p (gh_cache gh) = None /\ (gh_heap0 gh <= o)%nat)) /\
+     \/ (gh_heap0 gh <= o)%nat) /\
     match gh_attrs gh with
     | None => True
     | Some l => attrs_valid valid l = true /\ i = Some (spec_keys valid l)
@@ -207,3 +207,72 @@ Theorem C04_reused_refresh : forall valid h g p o i,
   In (p, o, i) (gh_yields gh) -> In p (gh_marked gh) -> (gh_heap0 gh <= o)%nat.
 Proof. exact reused_refresh. Qed.
 Print Assumptions C04_reused_refresh.
+
+(* ---- an object found recycled, and the generators entered afterwards ---- *)
+
+(* every cache entry, in every history, maps a PID to an allocated object with that PID *)
+Theorem C04_cache_entries_wellformed : forall valid h,
+  let s := final valid h in
+  (forall p o, dget p (pmap s) = Some o -> (o < nobj s)%nat /\ o_pid (heap s o) = p) /\
+  (forall g a pm rest, gens s g = GRun a pm rest ->
+     (forall p o, dget p pm = Some o -> (o < nobj s)%nat /\ o_pid (heap s o) = p) /\
+     (forall p o, In (p, Some o) rest -> (o < nobj s)%nat /\ o_pid (heap s o) = p)) /\
+  (forall g, (ngen s <= g)%nat -> gens s g = GDone).
+Proof. exact Kpid_final. Qed.
+Print Assumptions C04_cache_entries_wellformed.
+
+(* the loop meeting a cache entry (pid, o): without the reused flag it yields o itself (or drops the
+   PID on NoSuchProcess, or as_dict ends the generator); with the flag (b70d950) the entry is handled
+   exactly like a PID without a cache entry, i.e. replaced by a fresh object *)
+Theorem C04_visit_cached : forall t valid attrs x pid o rest,
+  o_reused (l_hp x o) = false ->
+  (exists x' i, gen_loop t valid attrs x ((pid, Some o) :: rest) = LYield x' rest pid o i)
+  \/ (exists x', gen_loop t valid attrs x ((pid, Some o) :: rest) = gen_loop t valid attrs x' rest)
+  \/ (exists x' e, gen_loop t valid attrs x ((pid, Some o) :: rest) = LExc x' e)
+  \/ (exists x', gen_loop t valid attrs x ((pid, Some o) :: rest) = LOom x').
+Proof. exact visit_cached. Qed.
+Print Assumptions C04_visit_cached.
+
+Theorem C04_visit_flagged : forall t valid attrs x pid o rest,
+  o_reused (l_hp x o) = true ->
+  gen_loop t valid attrs x ((pid, Some o) :: rest) = gen_loop t valid attrs x ((pid, None) :: rest).
+Proof. exact visit_flagged. Qed.
+Print Assumptions C04_visit_flagged.
+
+(* After is_running() on object x returned False because its PID now belongs to a process with
+   another start time (also in the middle of the iteration that yielded x, PID not yet in the
+   committed cache): the PID is marked, and in EVERY continuation h1 -- overlapping generators,
+   generators suspended at that moment, partially consumed and closed ones included -- no next()
+   of any generator yields x again. *)
+Theorem C04_found_recycled_never_again : forall valid h0 x h1 g p i,
+  let s0 := final valid h0 in
+  (x < nobj s0)%nat -> o_gone (heap s0 x) = false -> o_reused (heap s0 x) = false ->
+  (exists k, find_proc (tbl s0) (o_pid (heap s0 x)) = Some k /\ k_start k <> o_start (heap s0 x)) ->
+  let s1 := fst (step valid s0 (IsRunning x)) in
+  snd (step valid s0 (IsRunning x)) = OBool false /\
+  In (o_pid (heap s0 x)) (reused s1) /\
+  snd (step valid (runs valid s1 h1) (IterNext g)) <> OYield p x i.
+Proof. exact found_recycled_never_again. Qed.
+Print Assumptions C04_found_recycled_never_again.
+
+(* more generally: an object carrying the reused flag (however it got it) is never yielded *)
+Theorem C04_flagged_never_yielded : forall valid x s h g p i,
+  (x < nobj s)%nat -> o_reused (heap s x) = true ->
+  snd (step valid (runs valid s h) (IterNext g)) <> OYield p x i.
+Proof. exact flagged_never_yielded. Qed.
+Print Assumptions C04_flagged_never_yielded.
+
+(* fixed b70d950 -- the code BEFORE that repair (C04/Legacy.v: the loop used a cached object whatever
+   its flag) did not have this property: with overlapping generators, a generator entered after the
+   discovery yielded the stale object *)
+Theorem C04_legacy_found_recycled_refuted :
+  exists valid h0 x h1a g p i,
+    let s0 := runs_legacy valid init h0 in
+    let s1 := fst (step_legacy valid s0 (IsRunning x)) in
+    Nat.ltb x (nobj s0) = true /\ o_gone (heap s0 x) = false /\ o_reused (heap s0 x) = false /\
+    snd (step_legacy valid s0 (IsRunning x)) = OBool false /\ o_reused (heap s1 x) = true /\
+    zmem (o_pid (heap s0 x)) (reused s1) = true /\
+    match gens s1 g with GRun _ _ _ => false | _ => true end = true /\
+    snd (step_legacy valid (runs_legacy valid s1 h1a) (IterNext g)) = OYield p x i.
+Proof. exact legacy_found_recycled_refuted. Qed.
+Print Assumptions C04_legacy_found_recycled_refuted.
